@@ -18,7 +18,7 @@ use std::time::{Duration, Instant};
 // operations
 // ---------------------------------------------------------------------------
 
-const INPUTS: [&str; 18] = [
+const INPUTS: [&str; 20] = [
     "abc",
     "Abc",
     "\u{e9}\u{3000}\u{ff22}",
@@ -33,12 +33,15 @@ const INPUTS: [&str; 18] = [
     "\u{b5}",             // a second HasCompat letter in the same 64-code-point block as U+00AA
     // 12..17: characters whose code points agree in their low 8 / 10 / 12 bits but differ in every
     // per-code-point attribute (direction, case): two entries of any direct-mapped table
-    "\u{5d0}",  // 12  Hebrew alef (R)
-    "\u{4d0}",  // 13  = U+05D0 xor 2^8: Cyrillic capital (L, cased)
-    "\u{1d0}",  // 14  = U+05D0 xor 2^10: Latin small letter (L)
-    "\u{15d0}", // 15  = U+05D0 xor 2^12: Canadian syllabics (L)
+    // (each inside a label whose verdict changes if the character gets the other one's class)
+    "\u{5d0}\u{627}", // 12  Hebrew alef (R) + Arabic alef: valid RTL; invalid if U+05D0 is taken for L
+    "\u{4d0}a",       // 13  U+05D0 xor 2^8: Cyrillic capital (L) + a: invalid if taken for R
+    "\u{1d0}a",       // 14  U+05D0 xor 2^10: Latin small letter (L) + a
+    "\u{15d0}a",      // 15  U+05D0 xor 2^12: Canadian syllabics (L) + a
     "\u{c4}",   // 16  A with diaeresis
     "\u{1ec4}", // 17  = U+00C4 + 30 * 2^8: E with circumflex and tilde
+    "\u{4aa}",  // 18  U+00AA xor 2^10: a PVALID Cyrillic letter (U+00AA itself is input 8)
+    "\u{2aa}",  // 19  U+00AA xor 2^9: a PVALID IPA letter
 ];
 
 /// input number i: the fixed ones above, or (100 + k) = the k-th nickname of a call history
@@ -744,9 +747,9 @@ fn scenarios(thorough: bool) -> Vec<(String, Vec<Vec<Call>>, usize)> {
     // aliasing code points looked up in opposite orders, twice (an entry written in two steps can be
     // seen half-updated; the second calls observe what the race left behind)
     let alias: Vec<(&str, P, usize, usize)> = if thorough {
-        vec![("2x2-alias8", P::Ucp, 12, 13), ("2x2-alias10", P::Ucp, 12, 14), ("2x2-alias12", P::Ucp, 12, 15), ("2x2-alias-case", P::Ucm, 16, 17)]
+        vec![("2x2-alias8", P::Ucp, 12, 13), ("2x2-alias10", P::Ucp, 12, 14), ("2x2-alias12", P::Ucp, 12, 15), ("2x2-alias-case", P::Ucm, 16, 17), ("2x2-alias-dp10", P::Ucp, 8, 18), ("2x2-alias-dp9", P::Ucp, 8, 19)]
     } else {
-        vec![("2x2-alias10", P::Ucp, 12, 14), ("2x2-alias-case", P::Ucm, 16, 17)]
+        vec![("2x2-alias10", P::Ucp, 12, 14), ("2x2-alias-case", P::Ucm, 16, 17), ("2x2-alias-dp10", P::Ucp, 8, 18)]
     };
     for (name, p, a, b) in alias {
         v.push((name.into(), vec![vec![(p, O::Enforce, a), (p, O::Enforce, b)], vec![(p, O::Enforce, b), (p, O::Enforce, a)]], unbounded));
